@@ -53,13 +53,17 @@ func vNoDup(a []string) bool {
 	return ok
 }
 
+// vTwoIDs: two symbolic IDs; with case mix = 1 the second one is one level finer on both axes
+// (mixed precision inside one list).
 func vTwoIDs(h, v int64) (string, string) {
 	var id [2]string
+	mix := vCase("mix")
 	for i := int64(0); i < 2; i++ {
+		hh, vv := h+i*mix, v+i*mix
 		x, y, f := vNondetInt64(vN("x", i)), vNondetInt64(vN("y", i)), vNondetInt64(vN("f", i))
-		vAssume(0 <= x && x < int64(1)<<uint(h) && 0 <= y && y < int64(1)<<uint(h))
-		vAssume(-(int64(1)<<uint(v)) <= f && f < int64(1)<<uint(v))
-		id[i] = vID5(h, x, y, v, f)
+		vAssume(0 <= x && x < int64(1)<<uint(hh) && 0 <= y && y < int64(1)<<uint(hh))
+		vAssume(-(int64(1)<<uint(vv)) <= f && f < int64(1)<<uint(vv))
+		id[i] = vID5(hh, x, y, vv, f)
 	}
 	return id[0], id[1]
 }
@@ -86,6 +90,8 @@ func VerifC16Op() {
 			r, err = integrate.ChangeExtendedSpatialIdsZoom(ids, h, v+1)
 		case 2:
 			r, err = integrate.MergeExtendedSpatialIds(ids, h-1, v-1)
+		case 7:
+			r, err = integrate.MergeExtendedSpatialIds(ids, h, v)
 		case 3:
 			r, err = operated.GetNspatialIdsAroundVoxcels(ids, 0, 1)
 		case 4:
